@@ -68,6 +68,8 @@ package bcl
 //@   requires reader_given: r != nil
 //@   requires fresh_stream: g.rp == 0 && !g.short && g.rlen >= 0
 //@   ensures [C09,C06] complete_when_ok: result0 != nil && (result1 == nil ==> dumpable(result0))
+//@   ensures [C13,C09] the_loader_s_verdict_is_returned: result1 == g.loaderr
+//@   assert [C13,C09] loads_the_given_stream_once: at Load#1: true
 //
 //@ func Interpret
 //@   requires no_nil_option: forall i int :: 0 <= i && i < len(opts) ==> opts[i] != nil
